@@ -89,3 +89,14 @@ Record scenario := {
 
 Definition run_scenario (s : scenario) : list obs :=
   run_ops (beh_of (sc_tbl s)) (resolve (sc_md s)) (sc_fuel s) (sc_ops s) (init_cfg (sc_field0 s)).
+
+(* the calling styles: every one puts the same trigger and runs the same loop *)
+Inductive style := ByName | ByAttribute | ByEventsItem | ByAllowedEventsItem | ByBoundTrigger.
+
+(* Event.__get__ returns a BoundEvent tied to the instance; send() resolves the same event; a bound
+   trigger keeps the instance: in the model all of them are [send] of the same trigger *)
+Definition enter (st : style) (beh : behaviour) (rm : rmachine) (fuel : nat) (td : tdata) (c : cfg) : res pyres :=
+  match st with
+  | ByName | ByAttribute | ByEventsItem | ByAllowedEventsItem | ByBoundTrigger => send beh rm fuel td c
+  end.
+
